@@ -229,66 +229,93 @@ def nontrivial(s: Stream, cuts) -> bool:
 # =============================================================================
 class Steps:
     """None early, none late: after every chunk the framer must have emitted exactly the
-    packets wholly contained in what it has been fed."""
+    packets wholly contained in what it has been fed, byte for byte.
 
-    def __init__(self, r: R, framer, s: Stream, family, cuts):
+    Key of a failure: <framer>/<clause>/<type>/<length class> of the *culprit* — the first
+    packet of the stream that did not come out as built (first index at which the emitted
+    list stops being a prefix of the built list). Where the cut fell goes into the detail."""
+
+    def __init__(self, r: R, framer, s: Stream, family, cuts, plain_key=False):
         self.r, self.framer, self.s, self.family, self.cuts = r, framer, s, family, cuts
         self.failed = False
+        self.verified = 0
+        self.plain_key = plain_key
 
-    def _ptype(self, i):
-        return H.NAME[self.s.types[i]] if i < len(self.s.types) else 'none'
-
-    def _plen(self, i):
-        return H.len_class(self.s.desc[i][1]) if i < len(self.s.desc) else 'len=?'
+    def key(self, clause, i):
+        if self.plain_key:
+            return f'{self.framer}/{clause}'
+        if i >= len(self.s.types):
+            return f'{self.framer}/{clause}/past-last-packet'
+        return f'{self.framer}/{clause}/{H.NAME[self.s.types[i]]}/{H.len_class(self.s.desc[i][1])}'
 
     def ctx(self):
         return (f'stream={self.s.desc} family={self.family} cuts={self.cuts[:24]}'
                 f'{"..." if len(self.cuts) > 24 else ""} bytes={self.s.data[:48].hex()}'
                 f'{"..." if len(self.s.data) > 48 else ""}')
 
-    def after(self, fed, emitted):
+    def _content(self, out):
+        """Index of the first emitted packet that differs from the built one, or None."""
+        want = self.s.packets
+        for i in range(self.verified, min(len(out), len(want))):
+            if out[i] != want[i]:
+                return i
+            self.verified = i + 1
+        return None
+
+    def raised(self, e, fed, out, what):
+        self.failed = True
+        i = self._content(out)
+        i = len(out) if i is None else i
+        self.r.bad(self.key(f'raised/{type(e).__name__}', i),
+                   f'{what} raised {e!r} on well-formed data after {fed} bytes '
+                   f'(cut {self.s.cut_class(fed)}), {len(out)} packets out; {self.ctx()}')
+
+    def after(self, fed, out):
         if self.failed:
             return False
         want = H.complete_in_prefix(self.s.bounds, fed)
         self.r.ev('oracle_evals')
-        if emitted == want:
+        bad = self._content(out)
+        if bad is None and len(out) == want:
             return True
         self.failed = True
         cls = self.s.cut_class(fed)
-        if emitted > want:
-            i = want
-            self.r.bad(f'{self.framer}/early/{self._ptype(i)}/{self._plen(i)}/cut={cls}',
-                       f'{emitted} packets emitted after {fed} bytes, only {want} complete; {self.ctx()}')
+        if bad is not None:
+            i = bad
+            clause = 'early' if i >= want else 'content'
+            got = bytes(out[i])
+            self.r.bad(self.key(clause, i),
+                       f'packet {i} came out as {got[:24].hex()} ({len(got)} B), built as '
+                       f'{self.s.packets[i][:24].hex()} ({len(self.s.packets[i])} B); {len(out)} emitted after '
+                       f'{fed} bytes (cut {cls}), {want} complete; {self.ctx()}')
+        elif len(out) > want:
+            self.r.bad(self.key('early', want),
+                       f'{len(out)} packets emitted after {fed} bytes (cut {cls}), only {want} complete; {self.ctx()}')
         else:
-            i = emitted
-            self.r.bad(f'{self.framer}/late/{self._ptype(i)}/{self._plen(i)}/cut={cls}',
-                       f'{emitted} packets emitted after {fed} bytes although {want} are complete; {self.ctx()}')
+            self.r.bad(self.key('late', len(out)),
+                       f'{len(out)} packets emitted after {fed} bytes (cut {cls}) although {want} are complete; '
+                       f'{self.ctx()}')
         return False
 
-    def final(self, out, want=None):
+    def final(self, out):
         if self.failed:
             return False
-        want = self.s.packets if want is None else want
+        want = self.s.packets
         self.r.ev('oracle_evals')
-        if out == want:
+        bad = self._content(out)
+        if bad is None and len(out) == len(want):
             return True
         self.failed = True
-        if len(out) != len(want):
-            kind = 'lost' if len(out) < len(want) else 'extra'
-            i = min(len(out), len(want) - 1) if want else 0
-            self.r.bad(f'{self.framer}/{kind}/{self._ptype(i)}/{self._plen(i)}',
-                       f'{len(out)} packets for {len(want)} sent; {self.ctx()}')
-            return False
-        i = next(k for k in range(len(want)) if out[k] != want[k])
-        self.r.bad(f'{self.framer}/content/{self._ptype(i)}/{self._plen(i)}',
-                   f'packet {i}: got {bytes(out[i])[:24].hex()} ({len(out[i])} B) want '
-                   f'{want[i][:24].hex()} ({len(want[i])} B); {self.ctx()}')
+        if bad is not None:
+            self.r.bad(self.key('content', bad),
+                       f'packet {bad}: got {bytes(out[bad])[:24].hex()} ({len(out[bad])} B) want '
+                       f'{want[bad][:24].hex()} ({len(want[bad])} B); {self.ctx()}')
+        elif len(out) < len(want):
+            self.r.bad(self.key('lost', len(out)), f'{len(out)} packets for {len(want)} sent; {self.ctx()}')
+        else:
+            self.r.bad(self.key('extra', len(want)), f'{len(out)} packets for {len(want)} sent; extra '
+                       f'{bytes(out[len(want)])[:16].hex()}; {self.ctx()}')
         return False
-
-
-def exc_key(framer, e, st: Steps, fed):
-    cls = st.s.cut_class(fed)
-    return f'{framer}/raised/{type(e).__name__}/cut={cls}'
 
 
 class Collect:
@@ -313,11 +340,11 @@ def drive_parser(r: R, s: Stream, family, cuts):
         try:
             parser.feed_data(ch)
         except Exception as e:
-            r.bad(exc_key('parser', e, st, fed), f'feed_data raised {e!r} on well-formed data; {st.ctx()}')
+            st.raised(e, fed, sink.packets, 'feed_data')
             return None
         fed += len(ch)
         r.ev('parser_chunks')
-        if not st.after(fed, len(sink.packets)):
+        if not st.after(fed, sink.packets):
             return None
     st.final(sink.packets)
     return sink.packets
@@ -437,10 +464,10 @@ async def drive_areader(r: R, s: Stream, family, cuts):
             for _ in range(20):       # be sure "late" is not just a loop turn we did not grant
                 await asyncio.sleep(0)
         if err:
-            r.bad(exc_key('areader', err[0], st, fed), f'next_packet raised {err[0]!r} on well-formed data; {st.ctx()}')
+            st.raised(err[0], fed, out, 'next_packet')
             ok = False
             break
-        if not st.after(fed, len(out)):
+        if not st.after(fed, out):
             ok = False
             break
     sr.feed_eof()
@@ -478,11 +505,11 @@ def drive_usb(r: R, u: Stream, ptype, family, cuts):
         try:
             splitter.feed(ch)
         except Exception as e:
-            r.bad(f'{name}/raised/{type(e).__name__}', f'feed raised {e!r}; {st.ctx()}')
+            st.raised(e, fed, out, 'feed')
             return None
         fed += len(ch)
         r.ev('usb_chunks')
-        if not st.after(fed, len(out)):
+        if not st.after(fed, out):
             return None
     out = [bytes(p) for p in out]
     st.final(out)
@@ -729,7 +756,7 @@ async def invalid_stream(r: R, rng, s: Stream):
             base = len(got)
             # ---- subsequently fed well-formed data must frame exactly -----------------
             fam, cuts = rng.choice(list(chunkings(rng, post, all2_limit=40, one_limit=200, nrandom=2)))
-            st = Steps(r, f'invalid/after/{mode}', post, fam, cuts)
+            st = Steps(r, f'invalid/after/{mode}', post, fam, cuts, plain_key=True)
             fed = 0
             good = True
             for ch in H.split_at(post.data, cuts):
@@ -742,7 +769,7 @@ async def invalid_stream(r: R, rng, s: Stream):
                     break
                 fed += len(ch)
                 r.ev('parser_chunks')
-                if not st.after(fed, len(sink.packets) - base):
+                if not st.after(fed, sink.packets[base:]):
                     good = False
                     break
             if good:
